@@ -7,6 +7,7 @@
 -/
 import Model.Cache
 import Proofs.PathsStore
+import Proofs.Csv
 
 namespace Props.C19
 open Model.Paths Model.Cache Proofs.Paths
@@ -64,6 +65,23 @@ theorem c19_cache_roundtrip (hs : List Str) (hc : ∀ h ∈ hs, h.contains ',' =
     simp only [hne, Bool.false_eq_true, if_false, split]
     rw [split_join rest h [] hc]
     simp
+
+/-- **warm = cold, on the csv model**: the header cache as repaired writes the headers with
+    `csv.writer` and reads them with `csv.reader`; for *every* header list — empty, a single empty
+    name, names holding commas, quote characters, line feeds — with no carriage return in a name
+    (a text-mode reader never delivers one) the cache returns exactly the list that was stored. -/
+theorem c19_cache_roundtrip_csv (hs : List Str) (h : ∀ x ∈ hs, '\r' ∉ x ∧ x.length ≤ cacheDialect.limit) :
+    load (store hs) = some hs := by
+  unfold load store
+  rw [Proofs.Csv.read_recordCRLF cacheDialect ⟨by decide, by decide, by decide, by decide, by decide⟩ hs h]
+  cases hs with
+  | nil => rfl
+  | cons x xs => simp
+
+example : load (store [[], "a,b".toList, "q\"".toList, "two\nlines".toList]) = some [[], "a,b".toList, "q\"".toList, "two\nlines".toList] := by
+  decide
+
+example : load (store [[]]) = some [[]] := by decide
 
 /-- why the plain join was not enough (the defect repaired in /repo): with it `['']` came back
     as `[]` -/
